@@ -182,7 +182,8 @@ def env_faults(rng, events, op, files, outcome, rule_rel="rule.yaml", input_rel=
             if ("x", p) in seen:
                 continue
             seen.add(("x", p))
-            out.append({"kind": "missing", "target": p, "label": "exists_false:binary"})
+            xrole = "rule" if p == rule_rel else ("macrofile" if p in macro_files else "binary")
+            out.append({"kind": "missing", "target": p, "label": f"exists_false:{xrole}"})
         elif ev["seam"] == "spawn":
             if "spawn" in seen:
                 continue
